@@ -83,4 +83,33 @@ def validators(prog):
                 inner.append(f)
         inner.sort(key=lambda f: len(f.path))
         out[ext] = inner[0] if inner else None
+        if len(inner) > 1:
+            # several pipelines share a private skeleton that receives the parser as a function value (`parse_and_check(formula, graph,
+            # parse_fn)`): the skeleton, with the parser bound, is the validator
+            shared = None
+            for f in inner:
+                hs = set()
+                for x in raw.summary(f).sites:
+                    if x.kind in ("call", "mcall") and isinstance(x.callee, str) and any(isinstance(a, tuple) and a[:1] == ("def",) and str(a[1]).endswith(callee) for a in (x.args or [])):
+                        h = prog.resolve_local(f.crate, x.callee)
+                        if h is not None and h.path.startswith(MC) and h.vis != "Public":
+                            hs.add(h)
+                shared = hs if shared is None else (shared & hs)
+            if shared and len(shared) == 1:
+                h = next(iter(shared))
+                par = [n for n, t in zip(h.param_names(), h.param_tys) if "Fn(" in str(t) or "fn(" in str(t) or len(str(t)) <= 2]
+                if len(par) == 1:
+                    full = next(g.path for g in prog.lib_fns() if g.path.endswith("::" + callee))
+                    BINDINGS[h.path] = {par[0]: ("def", full)}
+                    out[ext] = h
     return out[False], out[True]
+
+
+# validator skeleton -> the parser it is bound to (see validators)
+BINDINGS = {}
+
+
+def validator_summary(eng, f):
+    """Summary of a validator; a shared skeleton is specialised for its parser."""
+    b = BINDINGS.get(f.path)
+    return eng.specialise(f, dict(b)) if b else eng.summary(f)
